@@ -21,6 +21,13 @@ pub enum Prior {
     MetaGarbage { variant: usize },
     IndexMissing,
     IndexEmptyDir,
+    /// Files and directories next to the index that another release, or a run of it that was killed, may have
+    /// left behind (`index.old/` with content, `index.tmp`, `meta.json.tmp`, `meta.json.bak`); with the metadata
+    /// of another version (the index must be replaced) or current metadata.
+    StraySiblings { other_version: bool },
+    /// Well-formed metadata of the current version whose stored hash is an odd string: multi-byte characters at
+    /// every small offset, empty, one character, 64 KiB long.
+    MetaOddHash { variant: usize },
     /// Written by another release: meta.json names another version (a semver neighbour of the current one)
     /// and the index directory has the layout that release used (another tokenizer, other field names,
     /// files that are not an index at all, or the current layout holding other documents).
@@ -246,6 +253,36 @@ fn prepare(dir: &Path, prior: &Prior) {
                 if *stale_hash {
                     v["database_hash"] = json!("deadbeef");
                 }
+            });
+        }
+        Prior::StraySiblings { other_version } => {
+            copy_dir(&r.template, dir);
+            let old = facts_dir.join("index.old");
+            std::fs::create_dir_all(old.join("nested")).unwrap();
+            std::fs::write(old.join("segment.store"), b"left behind").unwrap();
+            std::fs::write(old.join("nested/more"), b"left behind").unwrap();
+            std::fs::write(facts_dir.join("index.tmp"), b"left behind").unwrap();
+            std::fs::write(facts_dir.join("meta.json.tmp"), b"{\"version\": \"x\"").unwrap();
+            std::fs::write(facts_dir.join("meta.json.bak"), b"{}").unwrap();
+            if *other_version {
+                set_meta(&|v| {
+                    v["version"] = json!("0.0.0-other");
+                });
+            }
+        }
+        Prior::MetaOddHash { variant } => {
+            copy_dir(&r.template, dir);
+            let k = variant % 20;
+            let hash: String = match k {
+                0 => String::new(),
+                1 => "·".to_string(),
+                2 => "x".repeat(65536),
+                3 => "日本語のハッシュ値".to_string(),
+                // a multi-byte character starting at byte offset 4..=19 of an otherwise plausible hash
+                _ => format!("{}·{}", &"9a7f42b11904b4269a7f42b1"[..k], "1904b4269a7f42b1"),
+            };
+            set_meta(&|v| {
+                v["database_hash"] = json!(hash);
             });
         }
         Prior::OtherData => {
@@ -803,6 +840,8 @@ fn exec(h: &History, id: u64) -> CaseReport {
         Prior::MetaMissing => "prior:meta-missing",
         Prior::MetaTruncated { .. } => "prior:meta-truncated",
         Prior::MetaGarbage { .. } => "prior:meta-garbage",
+        Prior::StraySiblings { .. } => "prior:stray-siblings",
+        Prior::MetaOddHash { .. } => "prior:meta-odd-hash",
         Prior::IndexMissing => "prior:index-missing",
         Prior::IndexEmptyDir => "prior:index-empty-dir",
         Prior::ForeignRelease { .. } => "prior:foreign-release",
@@ -834,6 +873,9 @@ fn priors(seed: u64) -> Vec<Prior> {
         Prior::MetaGarbage { variant: (seed % 8) as usize },
         Prior::IndexMissing,
         Prior::IndexEmptyDir,
+        Prior::StraySiblings { other_version: true },
+        Prior::StraySiblings { other_version: false },
+        Prior::MetaOddHash { variant: (seed % 20) as usize },
     ]
 }
 
@@ -853,7 +895,7 @@ fn point(h: u64, n_docs: usize) -> String {
 }
 
 pub fn run_check(ctx: &Ctx) {
-    ctx.set_rule("fault histories = prior directory state (absent, complete, other version with current/stale hash, written by a neighbouring release (13 version strings next to the current one x index laid out with another tokenizer / other field names / not an index / other documents), other data over an index holding other documents, meta.json missing / truncated / garbage, index directory missing / empty / with its own meta.json emptied, truncated or removed / with a garbage .managed.json) x crash point (hooks: index opened, after delete_all_documents, after the k-th add_document, before/after commit, after reload, between creating and writing meta.json, after writing it) x 1-3 follow-up starts (each crashing at another point or completing), every start a child process calling Db::open under a private XDG_DATA_HOME and aborting at the selected point; oracle: every completing start answers the query set (every unambiguous typable fact phrase plus not-found probes) exactly like a fresh in-memory database and leaves meta.json = {current version, current hash}; after a crash that leaves meta.json claiming `current`, the next start (which will not rebuild) must still answer correctly; also histories in which the data files the tool reads are really replaced between starts (a constant of files/astronomics/populations gets another value; the new file with the same or another byte size, the same or a new time stamp; shipped -> changed -> changed, changed -> shipped -> shipped, changed -> other change -> shipped, and with a crash at a hook point in the first start that meets the new data), each start in a private mount namespace with the data directory bind-mounted over <repo>/db, judged against a fresh in-memory database under the same data; non-trivial = a crash between the first document and the metadata write followed by a completing start, or a data replacement that changes an answer; distinct by history");
+    ctx.set_rule("fault histories = prior directory state (absent, complete, other version with current/stale hash, written by a neighbouring release (13 version strings next to the current one x index laid out with another tokenizer / other field names / not an index / other documents), other data over an index holding other documents, meta.json missing / truncated / garbage, index directory missing / empty / with its own meta.json emptied, truncated or removed / with a garbage .managed.json, stray siblings left behind next to the index (index.old/, index.tmp, meta.json.tmp), well-formed metadata with an odd hash string (multi-byte characters at every small offset, empty, 64 KiB)) x crash point (hooks: index opened, after delete_all_documents, after the k-th add_document, before/after commit, after reload, between creating and writing meta.json, after writing it) x 1-3 follow-up starts (each crashing at another point or completing), every start a child process calling Db::open under a private XDG_DATA_HOME and aborting at the selected point; oracle: every completing start answers the query set (every unambiguous typable fact phrase plus not-found probes) exactly like a fresh in-memory database and leaves meta.json = {current version, current hash}; after a crash that leaves meta.json claiming `current`, the next start (which will not rebuild) must still answer correctly; also histories in which the data files the tool reads are really replaced between starts (a constant of files/astronomics/populations gets another value; the new file with the same or another byte size, the same or a new time stamp; shipped -> changed -> changed, changed -> shipped -> shipped, changed -> other change -> shipped, and with a crash at a hook point in the first start that meets the new data), each start in a private mount namespace with the data directory bind-mounted over <repo>/db, judged against a fresh in-memory database under the same data; non-trivial = a crash between the first document and the metadata write followed by a completing start, or a data replacement that changes an answer; distinct by history");
     ctx.assume("a crash is a process abort at a hook point (files already written stay visible); torn writes inside a single write call are modelled only through truncated/garbage meta.json prior states");
     let r = reference();
     ctx.put("query_set", json!(r.queries));
@@ -898,6 +940,10 @@ pub fn run_check(ctx: &Ctx) {
             }
         }
     }
+    // every odd stored hash once
+    for k in 0..20usize {
+        all.push(History { prior: Prior::MetaOddHash { variant: k }, starts: vec![None, None] });
+    }
     // boundary document counts
     for k in [1usize, 2, r.n_docs - 1, r.n_docs] {
         all.push(History { prior: Prior::Absent, starts: vec![Some(format!("add-document@{}", k)), None] });
@@ -922,7 +968,21 @@ pub fn run_check(ctx: &Ctx) {
     }
     ctx.put("systematic_histories", json!(all.len() as u64 - nrand - n_corpus as u64));
     // hook-free tier: kill at the n-th system call of a class (strace fault injection), thorough only
-    if ctx.tier == crate::runner::Tier::Thorough && std::process::Command::new("strace").arg("-V").output().is_ok() {
+    let have_strace = std::process::Command::new("strace").arg("-V").output().is_ok();
+    if ctx.tier == crate::runner::Tier::Quick && have_strace {
+        // a small hook-free sweep in the quick tier too: a kill at the first calls of the directory-changing system
+        // calls, on the states in which the index directory must be replaced (crash windows that lie between
+        // the named hook points, or in code that has no hooks)
+        let mut k = 0usize;
+        for sc in ["rename", "renameat", "renameat2", "mkdir", "mkdirat", "rmdir", "unlink", "unlinkat"] {
+            for n in 1..=6u32 {
+                let priors = [Prior::OtherVersion { stale_hash: false }, Prior::Combo { index: IndexState::Complete, meta: MetaState::StaleHash }, Prior::StraySiblings { other_version: true }, Prior::IndexMissing];
+                k += 1;
+                all.push(History { prior: priors[k % priors.len()].clone(), starts: vec![Some(format!("strace:{}@{}", sc, n)), None, None] });
+            }
+        }
+    }
+    if ctx.tier == crate::runner::Tier::Thorough && have_strace {
         let classes = ["write", "pwrite64", "fsync", "fdatasync", "rename", "renameat", "openat", "unlink", "unlinkat", "mkdir", "ftruncate", "close", "mmap", "munmap", "fcntl", "flock"];
         let mut ns: Vec<u32> = (1..=40).collect();
         ns.extend((45..=400).step_by(5));
